@@ -1,5 +1,6 @@
 import GodiModel.Build
 import GodiModel.Hyp
+import GodiModel.Ctx
 import Driver.Util
 /-! Line protocol for M5 (`p …` lines). One output line per input line. -/
 namespace Driver.ContD
@@ -87,28 +88,6 @@ def parseDep (s : String) : Option Dep :=
 def parseScope (s : String) : Option Nat :=
   if s.startsWith "s" then (s.drop 1).toString.toNat? else none
 
-/-- scopes (other than the root) whose creation context is `x` or a descendant of it -/
-def ctxUnder (st : State) (fuel : Nat) (c x : Nat) : Bool :=
-  match fuel with
-  | 0 => false
-  | f+1 => if c == 0 then false else if c == x then true else ctxUnder st f (st.ctxParent c) x
-
-def scopeCtxChain (st : State) (fuel : Nat) (s x : Nat) : Bool :=
-  match fuel with
-  | 0 => false
-  | f+1 =>
-    let sc := st.scope s
-    if sc.ctxOf != 0 then ctxUnder st 64 sc.ctxOf x
-    else match sc.parent with
-      | some p => if p == rootScope then false else scopeCtxChain st f p x
-      | none => false
-
-/-- the user context `c` or one of its ancestors has been cancelled -/
-def ctxDone (st : State) (fuel : Nat) (c : Nat) : Bool :=
-  match fuel with
-  | 0 => false
-  | f+1 => if c == 0 then false else st.ctxCancelled c || ctxDone st f (st.ctxParent c)
-
 def step (d : DSt) (ws : List String) : DSt × String :=
   let beh := mkBeh d
   match ws with
@@ -159,9 +138,7 @@ def step (d : DSt) (ws : List String) : DSt × String :=
           | some p => scopeCreateScope beh d.st p ctx
           | none => (d.st, .error [.fuel])
       -- a scope created with a context that is already done is closed at once by its watcher
-      let st := match r with
-        | .ok s => if ctxDone st 64 ctx then (closeScope beh id (closeFuel st) st s).1 else st
-        | .error _ => st
+      let st := watchNew beh st r ctx
       let evs := showEvents (newEvents d.st st)
       match r with
       | .ok s => ({ d with st := st }, s!"ok s{s}" ++ evs)
@@ -200,9 +177,7 @@ def step (d : DSt) (ws : List String) : DSt × String :=
     match x.toNat? with
     | none => (d, "bad-op")
     | some x =>
-      let st0 := { d.st with ctxCancelled := fun c => c == x || d.st.ctxCancelled c }
-      let affected := (List.range st0.nscopes).filter (fun s => s != rootScope && scopeCtxChain st0 64 s x)
-      let st := affected.foldl (fun st s => (closeScope beh id (closeFuel st) st s).1) st0
+      let st := cancelCtx beh d.st x
       ({ d with st := st }, "ok" ++ showEvents (newEvents d.st st))
   | ["state", frm] =>
     -- table sizes of a scope / the provider: what C14 observes
